@@ -76,9 +76,38 @@ CHECKS = {
                      "loss, EIO/ENOSPC/EACCES, each followed by a clean run that must restore the factory files and leave user files untouched.",
                 note="Trusted: simfs models os.OpenFile/Mkdir/Stat/ReadFile/Write faithfully (flags, EEXIST/ENOENT/EISDIR); trees in which a factory path is occupied by an entry of "
                      "the wrong type (file vs directory) are not generated."),
+    "C09": dict(level="exploration", ref="DESIGN.md §4 C09",
+                text="The real loader (LoadDeviceConfigs -> ParseData -> go-toml) and the real LoadHIDIConfig on file contents produced by user-style edit histories of "
+                     "generated valid configurations, storage faults (truncation, bit flips, torn saves, zeroed ranges), injected read errors, and - in the concurrent part - "
+                     "reloads triggered by the real watcher while the user is in the middle of a multi-write save; a recovered panic is the violation.",
+                note="Bounded quantifier, stated in DESIGN: contents reachable from valid files by <= 6 edits and one storage fault; arbitrary byte strings are not sampled "
+                     "(the decoder rejects them at the first token; that is a fuzzer's job). 'Never hangs' is covered by the watchdog only."),
+    "C10": dict(level="exploration", ref="DESIGN.md §4 C10",
+                text="Generated configurations using every feature of the format are loaded through the real loader and compared, on a semantic projection, with an expectation "
+                     "built directly from the structured description; every single-field invalidation of the statement's list must make the file absent from the loaded set. "
+                     "ParseData is a pure function: the simulator contributes only the path file-on-sim-disk -> loader; this is input generation and is labelled so.",
+                note="The expectation never goes through the parser. Sub-handler names and identifiers are unique per file."),
+    "C12": dict(level="exploration", ref="DESIGN.md §4 C12",
+                text="Generated hidi-config trees (every presence combination of exact/default/other/broken/non-TOML files in the four directories, nested directories, "
+                     "unreadable files, a missing or unreadable directory injected through the file-system seam) loaded with the real LoadDeviceConfigs and queried with "
+                     "FindConfig for keyboard, joystick, mouse and unknown devices; compared with a reference precedence over what is present and valid at read time.",
+                note="Identifiers are unique per directory (the statement does not say which of two equal identifiers wins). A directory problem may surface as an error or as an "
+                     "empty class - both are accepted, a panic is not."),
+    "C19": dict(level="exploration", ref="DESIGN.md §4 C19",
+                text="Seeded schedules of the real DetectDeviceConfigChanges over a simulated inotify/fsnotify: user writes (single/multi write(), append, create, atomic rename, "
+                     "remove, nested) to TOML and look-alike names, a prompt or late consumer, cancellation at any time: every in-place modification of a *.toml file is followed "
+                     "by a notification, no notification without one, never more notifications than write operations, the stream closes after cancel.",
+                note="fsnotify and the kernel are replaced by a stub that mirrors fsnotify 1.5.1's observable contract; its Errors path and queue overflow are not modelled."),
+    "C20": dict(level="exploration", ref="DESIGN.md §4 C20",
+                text="The real input.Normalize on generated handler multisets in six discovery orders, each with a PRNG map-iteration order: partition, grouping by physical "
+                     "location, device type by the stated rule over the per-handler classification, equality of the result across orders. Apart from the two order seams this "
+                     "is a pure function; claimed at low strength.",
+                note="Handlers cannot be opened in the sandbox (the property allows it), so names and AbsInfos are not compared."),
 }
 
-NA = {}
+NA = {"C11": "StringToNote / NoteToPitch / NoteToOctave are pure functions of one short string or one byte: no state, history, schedule, clock, I/O or fault for a simulator to "
+             "control; deciding it means enumerating strings, which is not deterministic simulation (DESIGN.md §5). C10's rejection clause feeds note-name typos through the "
+             "loader, but that is C10's evidence, not a claim on C11."}
 
 PROPS = [json.loads(l) for l in open(os.path.join(VERIF, "properties.jsonl"))]
 
